@@ -265,6 +265,16 @@ func (e *cenv) ident(name string) Value {
 		if v, ok := e.params[name]; ok {
 			return v
 		}
+		// a closure's captured variables, in pre- and postconditions of a closure that is verified on its own
+		for _, fv := range e.fn.FreeVars {
+			if fv.Name() == name {
+				if addr, ok := e.st.vals[fv]; ok {
+					if pt, ok := fv.Type().(*types.Pointer); ok {
+						return fx.load(e.st, e.reach, addr, pt.Elem())
+					}
+				}
+			}
+		}
 		// name0: entry value of parameter `name`
 		if strings.HasSuffix(name, "0") {
 			if v, ok := e.params[strings.TrimSuffix(name, "0")]; ok {
